@@ -62,6 +62,7 @@ package protocol
 //@   flag termination
 //@   requires #args: len(cmd.Args) >= 1
 //@   ensures  #nonnil: result.1 == nil ==> result.0 != nil
+//@   ensures  #del: result.1 == nil ==> result.0.Del != nil
 
 //@ func ParsePExpireCommand(cmd redcon.Command) (*PExpire, error)
 //@   props C16
@@ -99,6 +100,7 @@ package protocol
 //@   flag termination
 //@   requires #args: len(cmd.Args) >= 1
 //@   ensures  #nonnil: result.1 == nil ==> result.0 != nil
+//@   ensures  #embedded: result.1 == nil ==> result.0.Incr != nil
 
 //@ func ParseGetPutCommand(cmd redcon.Command) (*GetPut, error)
 //@   props C16
